@@ -10,7 +10,7 @@ import (
 )
 
 func nilReplay(w *World, o *Obligation, q *Query, _ map[string]string) (string, string) {
-	if q.Fn == nil || q.Fn.Pkg == nil || q.Fn.Signature.Recv() != nil || q.Fn.Object() == nil {
+	if q.Fn == nil || q.Fn.Pkg == nil || q.Fn.Signature.Recv() != nil || q.Fn.Object() == nil || q.Status != "sat" {
 		return "", ""
 	}
 	if !(strings.Contains(o.Name, "#nilin.nilout") || strings.Contains(o.Name, "#inv.") || (o.Kind == "post" && strings.Contains(o.Text, "== nil ==> result == nil"))) {
